@@ -54,6 +54,9 @@ pub struct Invocation {
     /// input files as written
     pub files: Vec<String>,
     pub env: Vec<(String, String)>,
+    /// standard output is a terminal (colours are then on by default)
+    #[serde(default)]
+    pub tty: bool,
 }
 
 /// Everything the model may need to read: path as written -> bytes (None = does not exist).
@@ -281,7 +284,10 @@ pub fn writer_of(inv: &Invocation) -> Result<Writer, String> {
         None if inv.join => Some(Format::Raw),
         None => None,
     };
-    let color = !inv.mono && inv.color;
+    // the manual: colours are used if standard output is a terminal, unless NO_COLOR is set to a
+    // non-empty value; -C forces them on, -M off (and wins)
+    let no_color = inv.env.iter().rev().find(|(k, _)| k == "NO_COLOR").is_some_and(|(_, v)| !v.is_empty());
+    let color = !inv.mono && (inv.color || (inv.tty && !no_color));
     let styles = if color {
         let c = Styles::ansi();
         match inv.env.iter().rev().find(|(k, _)| k == "JQ_COLORS") {
